@@ -137,7 +137,9 @@ def gen_set_op(rng, ts, k0, E):
 
     n = len(ts)
     hor = ts[k0:]
-    m = rng.randrange(E + 1) if rng.random() < 0.15 else rng.randrange(E)
+    # mostly existing members; sometimes the next one, sometimes an index that skips members (created out of order)
+    r_ = rng.random()
+    m = rng.randrange(E) if r_ < 0.75 else (E if r_ < 0.85 else E + rng.randint(1, 2))
     v = rng.randrange(len(VARS))
     check = rng.random() < 0.8
     kind = rng.choice(["arr", "arr", "ts_sub", "ts_sub", "ts_all", "ts_contig", "ts_bad", "arr_bad", "ts_len", "arr_short"])
@@ -217,7 +219,7 @@ def stream_io(c, N):
             # set / get sequences
             for _ in range(rng.randint(2, 7)):
                 if rng.random() < 0.3:
-                    o = {"op": "get", "m": rng.randrange(E + 1), "v": rng.randrange(len(VARS))}
+                    o = {"op": "get", "m": rng.randrange(E + 2), "v": rng.randrange(len(VARS))}
                     g = call(lambda: p.get_timeseries(VARS[o["v"]], o["m"]))
                     res.append("raise" if g[0] == "raise" else [float(x) for x in g[1].values])
                 else:
@@ -234,7 +236,15 @@ def stream_io(c, N):
                         E = max(E, o["m"] + 1)
                 ops.append(o)
                 c.hit("io/op " + (o.get("kind") or "get"))
-            # bounds last: the code replaces NaN in place (see probe)
+            # finally every (member, variable) is read once more: members are separate stores
+            final = {}
+            for m in range(E + 1):
+                for vi, var in enumerate(VARS):
+                    g = call(lambda: p.get_timeseries(var, m))
+                    final[(m, vi)] = "raise" if g[0] == "raise" else [float(x) for x in g[1].values]
+            obs["final"] = final
+            obs["E_final"] = E
+            # bounds last
             pre_b = {nm: call(lambda: [float(x) for x in p.get_timeseries(nm, 0).values]) for nm in ("u_Max", "u_Min")}
             b = call(p.bounds)
             post_b = {nm: call(lambda: [float(x) for x in p.get_timeseries(nm, 0).values]) for nm in ("u_Max", "u_Min")}
@@ -284,6 +294,29 @@ def stream_io(c, N):
                         exp_t = [float(t) for t in ts if t <= 0]
                         if var not in h or h[var][0] != exp_t or not eqv(h[var][1], src[-1][:len(exp_t)]):
                             c.fail("history is not what lies at or before t0", case, {"member": m, "var": var, "got": h.get(var)})
+            # every member has its own store: what is retrieved for (m, v) is exactly the LAST series stored for
+            # (m, v), whatever was done to other members (also members created out of order / skipping indices);
+            # a (m, v) never stored is absent
+            last = {}
+            for (m, var), vals in series:
+                last[(m, VARS.index(var))] = list(vals)
+            bad_iso = None
+            for o, r in zip(case["ops"], res):
+                key = (o["m"], o["v"])
+                if o["op"] == "set":
+                    if r != "raise":
+                        last[key] = r  # what get returned right after the call
+                elif bad_iso is None:
+                    if (key in last) != (r != "raise") or (key in last and not eqv(last[key], r)):
+                        bad_iso = {"get": o, "expected": last.get(key, "absent"), "got": r}
+            if bad_iso is None:
+                for key, r in obs.get("final", {}).items():
+                    if (key in last) != (r != "raise") or (key in last and not eqv(last[key], r)):
+                        bad_iso = {"member": key[0], "variable": VARS[key[1]], "expected": last.get(key, "absent"), "got": r}
+                        break
+            if bad_iso is not None:
+                c.fail("a series stored for one ensemble member is not what is retrieved for that member "
+                       "(members share / lose data)", case, bad_iso)
             # set/get: alignment
             for o, r in zip(case["ops"], res):
                 if o["op"] != "set" or r == "raise":
